@@ -247,6 +247,7 @@ impl Prop for C03 {
             fit_chunks(&mut r.plan, chain_bytes(&scn.chain), 150_000);
             scn.runs.push(r);
         }
+        super::dress(&mut scn, rng, true);
         h.check(&mut scn)?;
         Ok(())
     }
